@@ -298,7 +298,8 @@ CLAIMED.update({
              "variadic and keyword arguments, method calls, binary and unary operators, list / tuple / set / dict literals incl. the with-length forms, records, type ascriptions, "
              "attribute accesses, nested variable definitions, blocks, lambdas) and arbitrary sub-expressions, the purity test reports the node impure whenever evaluating it evaluates "
              "a procedure call - the call itself (callee of procedure type or procedural method name, the criterion of check_expr) or any eagerly evaluated child; by induction this "
-             "covers expression trees of any depth. The link 'a definition is dropped only if unreferenced and pure' is read from eliminate_unused_def. The reference index, the other "
+             "covers expression trees of any depth. Stage 2: on the MIR of eliminate_unused_def, every path that overwrites a definition with a no-op implies that it has no referrers, that the "
+             "purity test called it pure, and that it is neither public, a glob nor `_`. The reference index itself (which uses count as referrers), the other "
              "passes (discarded variables), code generation at each level, and ClassDef / PatchDef / ReDef / Import initialisers are not decided.",
         note="Trusts rustc's MIR dump, engines/mirsem.py + mirflow.py, z3, the list of eagerly evaluated children per node kind written in props/c12.py (stated in the evidence), and std "
              "contract models for Vec / slice / Option / iterator adaptors. The encoding is validated per run: ~40 programs (each shape with every pure/effectful assignment of its "
